@@ -149,6 +149,10 @@ Proof.
   - intros l ->. apply P3. exact Hl.
 Qed.
 
+Lemma add_field_refused st fv i len start tags st' :
+  add_field st fv i len start tags = (st', Some E_VALUE) -> st' = st.
+Proof. apply add_field_refused_no_effect. Qed.
+
 Lemma assign_complete_exclusive_reachable st :
   reachable st -> exclusive_children (s_tree st) = true ->
   unpositioned (s_tree st) (s_store st) ->
